@@ -8,4 +8,7 @@ f6_0:
   call f8_0
   call f0_0
   call f4_0
+  mov wvsv0(%rip),%rax
+  mov wvsv0@GOTPCREL(%rip),%rax
+  mov wvsv0(%rip),%rax
   ret
